@@ -706,8 +706,11 @@ var handlerSigs = []struct {
 
 func (g *progGen) genHandler(i int) string {
 	h := handlerSigs[i]
-	// a handler may declare a prefix of the parameters, and may use "_"
-	n := g.pick(len(h.params) + 1)
+	// a handler declares either no parameters or all of them, and may use "_"
+	n := len(h.params)
+	if g.pick(3) == 0 {
+		n = 0
+	}
 	hdr := "on " + h.name
 	var ps []gvar
 	for j := 0; j < n; j++ {
